@@ -1,31 +1,46 @@
 CHECKS = {
     "C14": {
         "category": "proof",
-        "text": "Lean theorems over a labelled transition system of service.go's synchronisation points (any number of Listen/DoListen/Bind "
-                "calls, connections, handler threads; clients, faults, ctx cancellation, Shutdown as environment labels), by induction "
-                "over reachability: every accepted connection is in conncounter and in its owner's wait group exactly from counted until "
-                "done whichever way it ends (accounted_once); a returned serving call has no live handler (drains); a closed listener makes "
-                "the serving call reach its wait within 7 of its own steps under any interleaving, nil if Shutdown found it in Accept "
-                "(shutdown_returns); connections made after Shutdown are refused and never accepted (no_service_after_shutdown); after "
-                "return the shared state is the initial one (reusable); Bind while running changes nothing but the caller's result "
-                "(bind_refused_while_running, with the old behaviour's failing trace as a regression example). Tied to the code by a "
-                "regenerated synchronisation skeleton of service.go (decide) and by replaying all bounded histories on the real Service "
-                "through a controlled listener and on real sockets.",
-        "note": "Partial: fairness and the behaviour of package net are assumptions; return time is checked with one-sided margins only; "
-                "theorems about the return value / released endpoint assume no overlapping serving calls (the general model documents what "
-                "overlap does). Trusted: Lean kernel, harness (controlled listener, quiescence test), driver replay, skeleton extractor.",
-        "technique": "Lean 4 LTS + invariants by induction over reachability + regenerated skeleton (decide) + exhaustive bounded-history correspondence on the real code",
+        "text": "Lean theorems over a labelled transition system of service.go's synchronisation points (any number of Listen / DoListen / "
+                "Bind calls, connections and handler threads; clients, faults, ctx cancellation, accept-deadline expiry and Shutdown as "
+                "labels; every interleaving), by induction over reachability: conncounter and every call's wait group equal the number of "
+                "connections between their increment and decrement, and no wg.Done hits an empty group (accounted_once); the four endings "
+                "of a handler all take the one exit path that decrements each exactly once (four_endings_reach_closing, "
+                "exit_path_decrements_once, handler_progress); a returned serving call has no unfinished connection (drains); Bind while "
+                "running changes nothing but the caller's result (bind_refused_while_running, with the old behaviour's failing trace as a "
+                "decide'd regression example); after Shutdown the stored listener is closed for ever and every later connection to it is "
+                "refused and never accepted (no_service_after_shutdown); under the orderly discipline Shutdown closes the listener the "
+                "call serves and, along any interleaving, the call's own step is never blocked and reaches its wait within 7 own steps "
+                "(shutdown_returns), with nil if Shutdown found it in Accept (shutdown_in_accept_returns_nil); the wait ends exactly when "
+                "its connections have ended (wait_returns_when_drained); the returning step leaves the shared state initial and nothing "
+                "in flight (reusable). Tied to the code by the regenerated synchronisation skeleton of service.go (skeleton_matches, "
+                "decide) and by replaying all bounded histories, with every placement of Shutdown at a listener interaction, on the real "
+                "Service through a controlled listener and on real unix/abstract/tcp sockets, each followed by a full second "
+                "bind-serve-call-shutdown cycle.",
+        "note": "Partial: fairness and the behaviour of package net are assumptions (listed in lean/Varlink/Lifecycle.lean, re-validated on "
+                "real sockets each run); return time is checked with one-sided margins (3 s watchdog); theorems about return value, "
+                "endpoint release and reusability assume the orderly discipline (no API call started while a serving call's start-up or "
+                "drain is in flight, except binds refused because running = true) — the general model documents what overlap does "
+                "(a decide'd example: Bind concurrent with DoListen's start is not refused and Shutdown then does not end serving; "
+                "reproducible on the real code with `vh lifeprobe`). Trusted: Lean kernel, harness (controlled listener, quiescence test), "
+                "driver replay of harness events, skeleton extractor.",
+        "technique": "Lean 4 LTS + invariants by induction over reachability + bounded-progress measure + regenerated skeleton (decide) + exhaustive bounded-history correspondence on the real code",
     },
     "C15": {
         "category": "proof",
-        "text": "Same transition system with a timeout: the timeout error is returned only by the step that found conncounter = 0 right after "
-                "an accept expiry (timeout_only_when_idle); with an open connection an expiry leads back to the loop "
-                "(open_connection_blocks_timeout); with none it ends serving (next_expiry_after_last_close_fires); without a timeout no "
-                "expiry is ever enabled and serving ends only by Shutdown or an accept error (no_timeout_never_stops); a timeout return has "
-                "closed the listener, so later connects are refused and the address can be bound again (timeout_releases_endpoint). "
-                "Tied by injected expiries on the controlled listener (all bounded histories) and real-clock runs on unix/abstract/tcp.",
-        "note": "Partial: behaviour of net deadlines is an assumption validated only by the real-clock runs (one-sided margins); "
-                "endpoint release is proved for non-overlapping serving calls. Trusted: as C14.",
+        "text": "Same transition system with a timeout: the step that sets the timeout return value is the call's own check at "
+                "pc errTimeout, reached only by an accept expiry, and it found conncounter = 0, i.e. no accepted connection open "
+                "(timeout_only_when_idle); with an open connection expiry + check lead back to the loop check with the return value "
+                "unset (open_connection_blocks_timeout); with conncounter = 0 they end serving with the timeout error "
+                "(next_expiry_after_last_close_fires); with no timeout configured and no Shutdown no expiry label is ever enabled, a call "
+                "in its loop stays there with the service running and the listener open, and nothing returns but start-up errors "
+                "(no_timeout_never_stops); a call that returned the timeout error has closed the listener it served in its teardown: the "
+                "address is free at once (the guard of the listen step), the listener stays closed and every later client is refused "
+                "(timeout_releases_endpoint, with the old teardown's failing trace as a decide'd regression example). Tied by the same "
+                "regenerated skeleton, by all bounded histories with expiries (and Shutdown placed before / after them) injected through "
+                "the controlled listener, and by real-clock histories on unix-path / abstract / tcp sockets incl. immediate re-listen.",
+        "note": "Partial: net deadline behaviour is an assumption validated only by the real-clock runs (timeout 400 ms, one-sided margins); "
+                "endpoint release and never-stops are proved under the orderly discipline (see C14). Trusted: as C14.",
         "technique": "Lean 4 LTS + invariants by induction + exhaustive bounded-history correspondence with injected expiries + real-clock socket runs",
     },
 }
